@@ -352,9 +352,24 @@ func c05Scenario(c *Ctx, idx int, r *Rng) {
 					}
 				}
 				wt := filepath.Join(base, "wt2")
-				if _, code := w.git("worktree", "add", "-q", wt, other); code == 0 {
+				wtArgs := []string{"worktree", "add", "-q", wt, other}
+				detachedWt := r.Chance(40)
+				if detachedWt {
+					wtArgs = []string{"worktree", "add", "-q", "--detach", wt, other}
+				}
+				if _, code := w.git(wtArgs...); code == 0 {
 					worktrees = append(worktrees, wt)
-					s.log("worktree add wt2 %s", other)
+					s.log("%s", strings.Join(wtArgs, " "))
+					if detachedWt && r.Chance(70) {
+						// commits made on the other worktree's DETACHED HEAD: reachable from no ref at all
+						for k := 0; k < 2; k++ {
+							p := filepath.Join(wt, Pick(r, []string{"a.bin", "w.bin"}))
+							os.WriteFile(p, newContent(), 0o644)
+							s.commit(wt, fmt.Sprintf("wt2 detached %d", k))
+						}
+						s.log("wt2: two commits on its detached HEAD")
+						c.R.Count("worktree.detached-head-commits")
+					}
 					if r.Bool() {
 						p := filepath.Join(wt, Pick(r, files))
 						os.MkdirAll(filepath.Dir(p), 0o755)
@@ -499,7 +514,22 @@ func c05Scenario(c *Ctx, idx int, r *Rng) {
 		}
 	}
 	// unpushed: introduced by a commit reachable from a local branch, tag or HEAD and not from origin's refs
-	unpushed := revList(w.dir, w.env, "--branches", "--tags", "HEAD", "--not", "--remotes="+pruneRemote)
+	// … or from the HEAD of any worktree (a detached HEAD elsewhere is still somebody's unpushed work)
+	ulArgs := []string{"--branches", "--tags", "HEAD"}
+	wtHeadSeen := map[string]bool{}
+	if wl, _ := w.git("worktree", "list", "--porcelain"); wl != "" {
+		for _, l := range strings.Split(wl, "\n") {
+			if strings.HasPrefix(l, "HEAD ") {
+				ulArgs = append(ulArgs, strings.TrimPrefix(l, "HEAD "))
+				wtHeadSeen[strings.TrimPrefix(l, "HEAD ")] = true
+			}
+		}
+	}
+	ownUnpushed := map[string]bool{}
+	for _, cm := range revList(w.dir, w.env, "--branches", "--tags", "HEAD", "--not", "--remotes="+pruneRemote) {
+		ownUnpushed[cm] = true
+	}
+	unpushed := revList(w.dir, w.env, append(ulArgs, "--not", "--remotes="+pruneRemote)...)
 	for _, cm := range unpushed {
 		mine := treePtrs(w.dir, w.env, cm)
 		parents := strings.Fields(w.must("rev-list", "--parents", "-n", "1", cm))[1:]
@@ -515,7 +545,11 @@ func c05Scenario(c *Ctx, idx int, r *Rng) {
 				}
 			}
 			if !inSome {
-				keep(o, "introduced by unpushed commit "+cm[:8]+" ("+p+")")
+				if ownUnpushed[cm] {
+					keep(o, "introduced by unpushed commit "+cm[:8]+" ("+p+")")
+				} else {
+					keep(o, "introduced by an unpushed commit that only another worktree's detached HEAD reaches "+cm[:8]+" ("+p+")")
+				}
 			}
 		}
 	}
@@ -675,7 +709,11 @@ func c05Scenario(c *Ctx, idx int, r *Rng) {
 	}
 	for _, o := range deleted {
 		if why, ok := retained[o]; ok {
-			fail("prune deleted an object that is still needed: "+strings.SplitN(why, " (", 2)[0], fmt.Sprintf("%s: %s | %s", o[:12], why, clip(out, 200)), "")
+			sig := ""
+			if strings.Contains(why, "only another worktree's detached HEAD reaches") {
+				sig = "D44"
+			}
+			fail("prune deleted an object that is still needed: "+strings.SplitN(why, " (", 2)[0], fmt.Sprintf("%s: %s | %s", o[:12], why, clip(out, 200)), sig)
 		}
 		if len(flags) > 0 && flags[0] == "--verify-remote" {
 			unreach := len(flags) > 1 && flags[1] == "--verify-unreachable"
